@@ -172,6 +172,24 @@ class FnModel:
                     self.state += 1
                     self.out = x_tick * 2
                     ticked = True
+        elif f == "PulseFail":
+            # Pulse (pass-through now, 10 * latest input two steps later) feeding FailOn
+            due = t in self.due
+            self.due = {d for d in self.due if d > t}
+            y = None
+            if due:
+                y = self.last * 10
+            if x_tick is not None:
+                self.last = x_tick
+                y = x_tick
+                self.due.add(t + 2)
+            if y is not None:
+                if y == 666:
+                    err = "boom 666 at %d" % t
+                else:
+                    self.state += 1
+                    self.out = y * 2
+                    ticked = True
         elif f == "Add2":
             if (x_tick is not None or b_tick is not None) and self.x is not None and self.b is not None:
                 self.out = self.x + self.b
